@@ -14,33 +14,37 @@ Definition Tz (id : Z) (i : info) (ch : list rt) : rt := T (Z.to_nat id) i ch.
 Definition combos : list (bool * bool) :=
   [(true, true); (true, false); (false, true); (false, false)].
 
-Definition obs_start (root s : rt) (isroot : bool) : sx :=
+Definition obs_start (skl : list Z) (root s : rt) (isroot : bool) : sx :=
+  let sk := fun t : rt => existsb (Z.eqb (Z.of_nat (rid t))) skl in
   let tn := rname root in
   L [ L (map (fun ua => sx_dot (dot_export true (fst ua) (snd ua) isroot tn s)) combos);
       L (map (fun ua => sx_mer (mer_export (fst ua) (snd ua) s)) combos);
       if isroot then L [sx_rdf (rdf_of_tree true tn s)]
-      else L [sx_rdf (rdf_of_node true true s); sx_rdf (rdf_of_node true false s)] ].
+      else L [sx_rdf (rdf_of_node true no_mapper true s); sx_rdf (rdf_of_node true no_mapper false s);
+              sx_rdf (rdf_of_node true sk true s); sx_rdf (rdf_of_node true sk false s)] ].
 
 Definition find_start (root : rt) (z : Z) : option rt :=
   if Z.eqb z 0 then Some root
   else find (fun t => Nat.eqb (rid t) (Z.to_nat z)) (flat_map pre (rch root)).
 
 (* a case: the tree, the start nodes for the structured exports, whole Mermaid
-   charts requested as (start, options) and whole DOT documents likewise *)
-Definition run17 (c : rt * list Z * list (Z * mopts) * list (Z * dopts)) : sx :=
-  let root := fst (fst (fst c)) in
+   charts requested as (start, options), whole DOT documents likewise, and the
+   nodes for which the RDF node_mapper answers False *)
+Definition run17 (c : rt * list Z * list (Z * mopts) * list (Z * dopts) * list Z) : sx :=
+  let root := fst (fst (fst (fst c))) in
+  let skl := snd c in
   L [ L (map (fun z =>
                 match find_start root z with
-                | Some t => obs_start root t (Z.eqb z 0)
+                | Some t => obs_start skl root t (Z.eqb z 0)
                 | None => A (-1)%Z
-                end) (snd (fst (fst c))));
+                end) (snd (fst (fst (fst c)))));
       L (map (fun zo =>
                 match find_start root (fst zo) with
                 | Some t => sx_chart (mer_chart (snd zo) t)
                 | None => A (-2)%Z
-                end) (snd (fst c)));
+                end) (snd (fst (fst c))));
       L (map (fun zo =>
                 match find_start root (fst zo) with
                 | Some t => L (map sx_text (dot_doc (snd zo) (Z.eqb (fst zo) 0) (rname root) t))
                 | None => A (-2)%Z
-                end) (snd c)) ].
+                end) (snd (fst c))) ].
